@@ -18,6 +18,7 @@
 package c18
 
 import (
+	"encoding/json"
 	"fmt"
 	"os"
 	"path/filepath"
@@ -78,6 +79,91 @@ func ownInputs(ctx *core.Ctx) []c05.Input {
 	return out
 }
 
+// bundleInputs: the public compile API (NewBundle, AddTemplateString,
+// AddGlobalsFile, Compile / CompileToTofu) on bundles of k files of which j are
+// broken (j = 0..3; at the front, at the back, spread), broken by a lexical
+// error, a parser error, a checker error or a duplicate template, with and
+// without a globals file (valid, with an error early in a long file).
+func bundleInputs() []c05.Input {
+	good := func(i int) (string, string) {
+		return fmt.Sprintf("dir/f%d.soy", i), fmt.Sprintf("{namespace ns.f%d}\n\n/** @param x */\n{template .t}\nhello {$x}\n{/template}\n", i)
+	}
+	broken := map[string]func(i int) string{
+		"lexical": func(i int) string {
+			return fmt.Sprintf("{namespace ns.f%d}\n{template .t}\n{$x # 1}\n{/template}\n", i)
+		},
+		"parser": func(i int) string { return fmt.Sprintf("{namespace ns.f%d}\n{template .t}\n{if $x}\n{/template}\n", i) },
+		"parser-long-tail": func(i int) string {
+			return fmt.Sprintf("{namespace ns.f%d}\n{template .t}\n{foo $x}\n", i) + strings.Repeat("text {$y} {if $c}a{/if}\n", 200) + "{/template}\n"
+		},
+		"checker": func(i int) string {
+			return fmt.Sprintf("{namespace ns.f%d}\n{template .t}\n{$undeclared}\n{/template}\n", i)
+		},
+		"duplicate": func(i int) string {
+			return "{namespace ns.f0}\n/** @param x */\n{template .t}\ndup {$x}\n{/template}\n"
+		},
+		"empty": func(i int) string { return "" },
+		"bom":   func(i int) string { _, t := good(i); return "\xef\xbb\xbf" + t },
+	}
+	var kinds []string
+	for k := range broken {
+		kinds = append(kinds, k)
+	}
+	sort.Strings(kinds)
+	globalsTexts := []string{"", "a = 1\nb = 'x'\n", "a = 1 +\n" + strings.Repeat("g = 1\n", 80), "bad line\n" + strings.Repeat("g = 1\n", 40)}
+	var out []c05.Input
+	add := func(spec c05.BundleSpec, fam string) {
+		b, _ := json.Marshal(spec)
+		out = append(out, c05.Input{Entry: "bundle", Text: b, Family: "c18/bundle-" + fam})
+	}
+	for _, k := range []int{1, 2, 3, 4, 6, 9} {
+		for j := 0; j <= 3 && j <= k; j++ {
+			for _, place := range []string{"front", "back", "spread"} {
+				if j == 0 && place != "front" {
+					continue
+				}
+				bad := map[int]bool{}
+				for b := 0; b < j; b++ {
+					switch place {
+					case "front":
+						bad[b] = true
+					case "back":
+						bad[k-1-b] = true
+					default:
+						bad[(b*k)/j+(k/j)/2] = true
+					}
+				}
+				for _, kind := range kinds {
+					if j == 0 && kind != kinds[0] {
+						continue
+					}
+					for gi, g := range globalsTexts {
+						if gi > 0 && !(kind == "lexical" || j == 0) {
+							continue
+						}
+						for _, tofu := range []bool{false, true} {
+							var spec c05.BundleSpec
+							for i := 0; i < k; i++ {
+								n, t := good(i)
+								if bad[i] {
+									t = broken[kind](i)
+								}
+								spec.Files = append(spec.Files, struct {
+									Name string `json:"name"`
+									Text string `json:"text"`
+								}{n, t})
+							}
+							spec.Globals, spec.GlobalsFile, spec.Tofu = g, g != "", tofu
+							add(spec, kind)
+						}
+					}
+				}
+			}
+		}
+	}
+	return out
+}
+
 func exitPath(r *c05.Result) string {
 	if r.Outcome == "tree" {
 		return "success"
@@ -91,6 +177,8 @@ func entryName(in *c05.Input) string {
 		return "parse.Expr"
 	case "globals":
 		return "soy.ParseGlobals"
+	case "bundle":
+		return "soy.Bundle.Compile"
 	}
 	return "parse.SoyFile"
 }
@@ -148,7 +236,7 @@ func Run(ctx *core.Ctx) {
 		ctx.ToolError("%v", err)
 		return
 	}
-	own := ownInputs(ctx)
+	own := append(ownInputs(ctx), bundleInputs()...)
 	counts["c18"] = len(own)
 	inputs = append(own, inputs...)
 	// the generated files of C19's parse half (valid and with every fault at
